@@ -124,7 +124,16 @@ func cmdVerify(args []string) {
 			}
 		}
 	}
+	for _, o := range e.VerifyLemmas("", *timeout) {
+		if !strings.Contains(o.Name, *pat) && *pat != "" {
+			continue
+		}
+		total++
+		if o.Status != "discharged" {
+			failed++
+		}
+		fmt.Printf("%-70s %s (%s %.2fs) %v %s\n", o.Name, o.Status, o.Backend, o.Secs, o.Answers, o.Src)
+	}
 	fmt.Printf("obligations %d failed %d; solver queries %d (cached %d) solver time %.1fs; wall %.1fs\n", total, failed, statQueries, statCached, statSolverS, time.Since(t0).Seconds())
 	os.RemoveAll(scratch())
 }
-
